@@ -296,7 +296,9 @@ pub fn gen(r: &mut Rng) -> Value {
         let args: Vec<Value> = (0..n).map(|k| match r.below(6) { 0 => json!(["\"\"", ""]), 1 => json!(["${nope}", ""]), _ => json!([format!("a{}{}", i, k), format!("a{}{}", i, k)]) }).collect();
         // some calls are made from inside a for-in loop of the caller (the callee may leave its own loops through return)
         let lp = if i > 0 && r.chance(1, 3) { 1 + r.below(3) } else { 0 };
-        json!({"out": if r.chance(3, 4) { json!(format!("o{}", r.below(2))) } else { Value::Null }, "args": args, "loop": lp})
+        // (rarely the output variable is named like a positional parameter)
+        let out = if r.chance(1, 25) { json!(["1", "2"][r.below(2)]) } else if r.chance(3, 4) { json!(format!("o{}", r.below(2))) } else { Value::Null };
+        json!({"out": out, "args": args, "loop": lp})
     }).collect();
     json!({ "body": body, "calls": calls, "scoped": r.chance(1, 3), "preset": r.chance(1, 2), "deco": if r.chance(1, 2) { r.next() % 1000000 + 1 } else { 0 } })
 }
@@ -341,7 +343,10 @@ fn ret_inside_for(block: &Vec<Value>, in_for: bool) -> bool {
 pub fn class_of(input: &Value) -> &'static str {
     let body = input["body"].as_array().cloned().unwrap_or_default();
     let ncalls = input["calls"].as_array().map(|c| c.len()).unwrap_or(0);
-    if ncalls > 1 && ret_inside_for(&body, false) {
+    let positional_out = input["calls"].as_array().map(|cs| cs.iter().any(|c| matches!(c["out"].as_str(), Some("1") | Some("2") | Some("3")))).unwrap_or(false);
+    if positional_out {
+        "output-variable-named-like-a-positional-argument"
+    } else if ncalls > 1 && ret_inside_for(&body, false) {
         "return-inside-for-then-called-again"
     } else {
         "other"
